@@ -13,6 +13,7 @@ Oracle conventions (written from the statement, not from the code):
   border pixel list is taken as given, and the input is skipped if that list is not a duplicate-free list of valid slim
   indices."""
 import math
+import itertools
 import numpy as np
 from pyvc.bounded import bounded
 from pyvc import gens
@@ -237,9 +238,19 @@ def _source_plane(rng, mask, sub, pixel_scales, origin):
     return g
 
 
+def _large_masks():
+    """one or two cases far beyond the small domain (nothing in the statement depends on the size of the border): a thin
+    annulus and a disc whose borders have > 200 pixels"""
+    n = 90
+    yy, xx = np.mgrid[0:n, 0:n]
+    r = np.hypot(yy - (n - 1) / 2.0, xx - (n - 1) / 2.0)
+    yield ~((r > 37.5) & (r <= 40.0))
+    yield ~(r <= 36.2)
+
+
 def _gen_reloc(rng, tier):
-    for m in _masks(rng, tier):
-        sub = _sub_for(rng, m)
+    for m in itertools.chain(list(_large_masks())[:1 if tier != "thorough" else 2], _masks(rng, tier)):
+        sub = _sub_for(rng, m) if m.shape[0] <= 5 else np.ones(int((~m).sum()), dtype=int)
         ps = rng.choice([(1.0, 1.0), (0.5, 2.0), (0.1, 0.1)])
         origin = rng.choice([(0.0, 0.0), (1.0, -3.0)])
         g1 = _source_plane(rng, m, sub, ps, origin)
